@@ -176,7 +176,7 @@ def statics_table(model, rep, robot, rule):
                 L = resolve(inner, lasg) if inner is not None else None
             if L is not None:
                 is_T = isinstance(L, ast.Attribute) and L.attr == 'T'
-                base = L.value if is_T else None
+                base = resolve(L.value, lasg) if is_T else None          # the Jacobian may have been named before it is transposed
                 ok = bool(is_T and isinstance(base, ast.Call) and isinstance(base.func, ast.Attribute) and base.func.attr == jac
                           and src(base.func.value) == 'self')
                 if not ok:
